@@ -21,6 +21,7 @@ def dispatch (fields : List String) : Verdict :=
   | "C06" :: rest => handleC06 rest
   | "C09" :: rest => handleC09 rest
   | "C08" :: rest => handleC08 rest
+  | "C12" :: "optvalue" :: rest => handleC12OptValue rest
   | "C12" :: rest => handleC12 rest
   | "C10" :: rest => handleC10 rest
   | "C11" :: rest => handleC11 rest
